@@ -178,7 +178,14 @@ impl Method for PhoneticMethod {
                 return Suggestion::empty();
             }
 
-            self.create_suggestion(data, config)
+            let suggestion = self.create_suggestion(data, config);
+            if suggestion.is_empty() {
+                // Nothing visible is left (eg. only the escape character remains),
+                // so the input session has ended.
+                self.buffer.clear();
+            }
+
+            suggestion
         } else {
             Suggestion::empty()
         }
